@@ -56,7 +56,7 @@ def gen_rtl(rng):
     L = max(1, -(-n // r)) + rng.choice([0, 0, 1, 2, 3, 5])
   L = min(L, 12)
   return dict(fmt=fmt, inc=inc, unc=unc, L=L, r=r, seed=rng.randint(0, 10 ** 6),
-              avoid=rng.random() < 0.7)
+              avoid=rng.random() < 0.7, unc_first=rng.random() < 0.5)
 
 
 def rtl_shape(case):
@@ -70,6 +70,10 @@ def rtl_shape(case):
   if unc:
     shape["unconstrained"] = (None, sum(unc)) if (fmt == "dict_mixed" and all(s == 1 for s in unc)) \
         else [(None, s) for s in unc]
+  if case.get("unc_first"):
+    # dict INSERTION order: the layer must number the flattened inputs by sorted key (as call() concatenates
+    # them), whatever order the caller built the dict in (premade models list features in config order)
+    shape = {k: shape[k] for k in reversed(list(shape))}
   return shape
 
 
